@@ -140,6 +140,11 @@ func c13wRun(seq []string, concurrent int) (key, what, outcome string) {
 		}
 		outcome += o + ":" + strings.Join(got, ",") + " "
 	}
+	for _, fb := range fbs {
+		if fb.Lost {
+			return "skip", "a backend port released for the refuse behaviour was taken by another process", outcome
+		}
+	}
 	// read the published numbers at quiescence (aborted exchanges finish accounting asynchronously)
 	var m c13wMetrics
 	var infos []struct {
@@ -232,6 +237,10 @@ func TestVerifC13W(t *testing.T) {
 		key, what, outcome := c13wRun(j.seq, j.conc)
 		if key == "tool" {
 			t.Fatalf("tool error: %s", what)
+		}
+		if key == "skip" {
+			r.Note("skipped %v x%d: %s", j.seq, j.conc, what)
+			continue
 		}
 		if key != "" {
 			fails := 1
